@@ -978,6 +978,9 @@ func garbage(k int, longLen int, s sets, light bool, emit func(item)) {
 var escapeForms = []string{`\%03o`, `#%03o`}
 
 func runGarbage(t *testing.T, run *mc.Run, prop string) int {
+	if prop == "C19" && os.Getenv("VERIF_RACE_CHILD") != "" {
+		return c19RaceChild()
+	}
 	k, long := 3, 2000
 	escapeForms = []string{`\%03o`, `#%03o`}
 	if run.Thorough() {
@@ -1153,6 +1156,10 @@ func runGarbage(t *testing.T, run *mc.Run, prop string) int {
 	if prop == "C19" {
 		cov.Rule += "; (iv) every accepted-authentication line x the C05 environment orders {receiver ready, receiver late, never received + cancelled while parked, cancelled beforehand} in a synctest bubble: the counter moves with the written event whatever becomes of the login hand-off; (v) every form with the first one or two writes of its event failing (plain error, and errors matching context.Canceled / EOF / DeadlineExceeded / EINTR / EAGAIN) and later writes succeeding: an emitted event is counted once"
 		cov.Extra["handoff_order_executions"] = handoffs
+		cov.Rule += "; (vi) a free-running pass under the race detector: the lines of every form processed while a second goroutine uses the same metrics provider the way the daemon's audit.log watcher does (finds unsynchronised state shared between the provider's methods; sampling of schedules, used only for that)"
+		if run.Replay == "" {
+			c19RacePass(run, &cov)
+		}
 	}
 	return run.Finish(cov)
 }
